@@ -182,9 +182,14 @@ type fuzzFacts struct {
 //	               same content, and Size == len(Marshal)
 func checkFuzz(c *Case) (*evid.Failure, fuzzFacts) {
 	var fx fuzzFacts
-	b, err := ps.Build(&c.Schema)
-	if err != nil {
-		return &evid.Failure{Oracle: "harness: schema builds", Observed: err.Error(), Class: "harness"}, fx
+	var b *ps.Built
+	if t := c.Fuzz.Table; t >= 0 && t < len(fuzzSchemas) && reflect.DeepEqual(fuzzSchemas[t], c.Schema) {
+		b = fuzzBuilt[t] // the usual case: a table schema, built once
+	} else {
+		var err error
+		if b, err = ps.Build(&c.Schema); err != nil {
+			return &evid.Failure{Oracle: "harness: schema builds", Observed: err.Error(), Class: "harness"}, fx
+		}
 	}
 	in := c.Fuzz.Input
 	keep := append([]byte(nil), in...)
@@ -199,7 +204,7 @@ func checkFuzz(c *Case) (*evid.Failure, fuzzFacts) {
 	fx.segAccepts = segErr == nil
 
 	dyn := dynamicpb.NewMessage(b.Desc[0])
-	if err := gproto.Unmarshal(in, dyn); err != nil {
+	if err := refUnmarshal(in, dyn); err != nil {
 		fx.skipped = "reference-rejects"
 		return nil, fx
 	}
